@@ -31,10 +31,16 @@ def recording_case(ctx, seed):
     for _ in range(20):
         data = {'k%d' % i: g.mutable_value(3, sharing=sharing) for i in range(rng.randrange(1, 5))}
         md = {'m%d' % i: g.mutable_value(2, sharing=sharing) for i in range(rng.randrange(0, 3))}
+        if seed % 4 == 3:
+            # a value of a class that is serialized through a handler the service registered with the serializer
+            from vlib.values import PriceTable
+            data['custom'] = {'table': PriceTable([[1, 10], [2, 20], [3, 30]], 'p%d' % seed), 'n': [1]}
         if recording_in_domain(data, md):
             break
     else:
         return
+    if 'custom' in data:
+        ctx.count('recordings_with_a_custom_serializer_handler')
     w = {'case_seed': seed, 'cassette': kind, 'keys': sorted(data)}
     with open_box(kind) as box:
         cas = box.cassette
@@ -122,6 +128,16 @@ def replay_case(ctx, seed):
             body.append({'op': 'mutate', 'var': s['var']})
     p_mut = dict(prog, body=body)
     w = {'case_seed': seed, 'cassette': kind, 'program': describe(prog)}
+    if (seed // 3) % 2 == 1:
+        # the replayed code has renamed its inputs since the recording was made: every input is found through a fallback alias
+        from vlib.programs import clone
+        p_mut = clone(p_mut)
+        for d in p_mut['inputs']:
+            if d.get('resolver') is None and not d.get('fallback'):
+                d['fallback'] = [d['alias']] if seed % 2 else ('fn', [d['alias']])
+                d['alias'] = d['alias'] + '.renamed'
+        ctx.count('replays_through_fallback_aliases')
+        w['renamed_inputs'] = True
     with open_box(kind) as box:
         spy = SpyCassette(box.cassette)
         rec = TapeRecorder(spy)
@@ -187,6 +203,19 @@ def replay_case(ctx, seed):
                     ctx.violation('the recording that comes with a Playback changed when the recorded outputs it handed out were mutated', dict(w, key=key))
                     break
             nmut += mutate_deep(pb.original_recording.get_metadata())
+            # ... and it is still the stored recording: same keys, equal data under every key
+            stored = box.reader().get_recording(saves[0][2])
+            orig = pb.original_recording
+            if set(orig.get_all_keys()) != set(stored.get_all_keys()):
+                ctx.violation('the recording that comes with a Playback has other keys than the stored recording after the replay',
+                              dict(w, extra=sorted(set(orig.get_all_keys()) - set(stored.get_all_keys()))[:3]))
+            else:
+                for key in stored.get_all_keys():
+                    ctx.count('original_recording_keys_compared_with_the_store')
+                    if not teq(orig.get_data(key), stored.get_data(key)):
+                        ctx.violation('the recording that comes with a Playback differs from the stored recording after the replayed code mutated what it was handed',
+                                      dict(w, key=key))
+                        break
         ctx.case({'seed': seed, 'kind': kind, 'prog': describe(prog)}, nontrivial=True)
         ctx.count('replay_pairs')
 
